@@ -330,6 +330,12 @@ def run(ctx, R, tier):
     defaults_match(F, R)
     param_cache(F, R)
     in_chunk_time(F, R)
+    # 'keeps its old value until the tween's start time, then follows ...': the start time of a resume's fade is waited for once
+    from .c03 import resume_is_immediate
+    resume_is_immediate(F, R, rule='B.C06.resume')
+    # a request made before a sound's first callback is read in that callback: new sounds are picked up before they are polled
+    from .c07 import first as polled_after_pickup
+    polled_after_pickup(F, R)
     accumulators(F, R)
     duration_interp(F, R)
     # 'with the built-in easings the value never leaves the interval': their powers stay inside their domain (A.singular)
